@@ -23,6 +23,15 @@ class ConnCtx(FsmCtx):
     soft = True
     regime_exit = False
 
+    def check_escapes(self, escapes, cell):
+        # an exception that escapes into the reactor (e.g. a failing socket option) is logged there and
+        # the peering lives on: the connection invariants still apply
+        hard = [e for e in escapes if e[0] != "exc"]
+        if escapes and not hard:
+            self.stats["exception_escaped_into_reactor(run continues)"] += len(escapes)
+            return
+        FsmCtx.check_escapes(self, hard, cell)
+
     def __init__(self, cfg, tier):
         FsmCtx.__init__(self, cfg, tier)
         self.finishing = False
@@ -151,7 +160,7 @@ class ConnProfile(FsmProfile):
             "restriction on when pending connects are answered (or never), when the operator stops/starts, which connection "
             "(also stale ones) the peer talks on and when closes complete; at the end all timers are drained with the peer "
             "leaving everything open; non-trivial = reached OpenSent or beyond; distinct = distinct (state,event) cell sequence")
-    probes = ["connect_attempts", "ev:conn_timeout", "ev:stop", "ev:start", "max_live_1", "drained_runs", "same_instant_choice"]
+    probes = ["exception_escaped_into_reactor(run continues)", "connect_attempts", "ev:conn_timeout", "ev:stop", "ev:start", "max_live_1", "drained_runs", "same_instant_choice"]
 
     def gen_config(self, rng, idx, tier):
         cfg = swarm_config(rng, idx)
@@ -159,6 +168,10 @@ class ConnProfile(FsmProfile):
         cfg["w_cdone"] = rng.pick([0.3, 1, 3])
         cfg["w_rest"] = rng.pick([0.1, 0.3, 1])
         cfg["w_timer"] = rng.pick([1, 2, 4])
+        if rng.chance(0.1):
+            # TCP-MD5 configured; on half of these hosts the kernel refuses the socket option
+            cfg["md5"] = "s3cr3t"
+            cfg["sockopt_errno"] = rng.pick([None, 92])
         return cfg
 
 
